@@ -403,6 +403,50 @@ theorem Legacy.stepOK (F : Flags) (P : Params) (cfg : Cfg) : StepOK P cfg (NoSta
     | true => simpa using inv_reject cfg g.last acc lo o.t hi hlo
     | false => simpa using inv_accept cfg g.last acc lo o.t hi hlo
 
+/-! ## several trigger tasks of one function (legacy) -/
+
+theorem Legacy.runGroups_single (F : Flags) (P : Params) (cfg : Cfg) (k : Nat) (es : List (Nat × Ev)) (gs : Nat → GState)
+    (h : ∀ e ∈ es, e.1 = k) : Legacy.runGroups F P cfg es gs = Legacy.run F P cfg (es.map (·.2)) (gs k) := by
+  induction es generalizing gs with
+  | nil => rfl
+  | cons e es ih =>
+    obtain ⟨j, ev⟩ := e
+    have hj : j = k := h (j, ev) (by simp)
+    subst hj
+    have ih' := fun gs' => ih gs' (fun e he => h e (by simp [he]))
+    cases ev with
+    | direct => simp [Legacy.runGroups, Legacy.run, ih']
+    | occ o => simp [Legacy.runGroups, Legacy.run, ih']
+
+/-- without a hold-off (and without stale tables) the decision of a step does not depend on the task's state -/
+theorem Legacy.step_snd_holdfree (F : Flags) (hF : F.staleLocals = false) (P : Params) (cfg : Cfg)
+    (hh : cfg.timeActive = false ∨ cfg.holdOff = none) (g g' : GState) (o : Occ) :
+    (Legacy.step F P cfg g o).2 = (Legacy.step F P cfg g' o).2 := by
+  have hheld : ∀ l : Option Nat, heldOff (if cfg.timeActive then cfg.holdOff else none) l o.t = false := by
+    intro l
+    rcases hh with h | h
+    · simp [h, heldOff]
+    · cases cfg.timeActive <;> simp [h, heldOff]
+  have hg : ∀ tbl tbl', Legacy.guards F P cfg o tbl = Legacy.guards F P cfg o tbl' := by
+    intro tbl tbl'
+    simp [Legacy.guards, Legacy.afterState, Occ.seen, hF]
+  simp only [Legacy.step, hheld]
+  rw [hg g.tbl g'.tbl]
+  cases Legacy.guards F P cfg o g'.tbl <;> simp
+
+theorem Legacy.runGroups_holdfree (F : Flags) (hF : F.staleLocals = false) (P : Params) (cfg : Cfg)
+    (hh : cfg.timeActive = false ∨ cfg.holdOff = none) (es : List (Nat × Ev)) (gs : Nat → GState) (g : GState) :
+    Legacy.runGroups F P cfg es gs = Legacy.run F P cfg (es.map (·.2)) g := by
+  induction es generalizing gs g with
+  | nil => rfl
+  | cons e es ih =>
+    obtain ⟨k, ev⟩ := e
+    cases ev with
+    | direct => simp [Legacy.runGroups, Legacy.run, ih _ g]
+    | occ o =>
+      simp only [Legacy.runGroups, Legacy.run, List.map_cons]
+      rw [Legacy.step_snd_holdfree F hF P cfg hh (gs k) g o, ih _ (Legacy.step F P cfg g o).1]
+
 /-! ## runs only come from triggers; direct calls -/
 
 theorem runWith_length (step : GState → Occ → GState × Bool) (es : List Ev) (g : GState) :
